@@ -71,6 +71,8 @@ def bounding_attrs(ctx, entry, ctor_cs):
 
 def run(ctx, rep):
     ix, T = ctx.ix, ctx.typer
+    from .common import check_macro_table_lookup
+    check_macro_table_lookup(ctx, rep, "C09.8")
     from .common import check_fast_paths
     _fp_mods = ["jaqalpaq.core.algorithm.expand_subcircuits"]
     check_fast_paths(ctx, rep, "C09.7", [f for f in ix.functions.values() if f.module in _fp_mods and (f.cls is None or T.is_visitor(f.cls))], {"jaqalpaq.core.algorithm.expand_subcircuits.expand_subcircuits": {"body", "macros"}})
